@@ -23,11 +23,15 @@ META = {
         "access on a method object yields <name>.<attr> bound to the same sender (abstractly evaluated), the proxy / notifier / "
         "MultiCall create method objects / jobs for the requested name, a batch job is serialised from its own fields; C01.8 the "
         "HTTP handler hands the decoded body to the dispatcher and writes the dispatcher's reply; C01.9 (imported from C17.3) request "
-        "and response bodies are decoded once from the joined reads on both sides, so a non-ASCII argument or result survives any chunking."),
+        "and response bodies are decoded once from the joined reads on both sides, so a non-ASCII argument or result survives any chunking; "
+        "C01.10 every constructor that receives a config (PooledJSONRPCServer, CGI handler, the three transports, ServerProxy's default "
+        "transports) hands that very object to the package constructors it calls, so the class-translation switch of the caller's Config "
+        "is the one in force for every server class and transport."),
     "does_not_decide": "equality of values after JSON normalisation, Unicode/float fidelity of the backend, socket "
                        "behaviour of the three transports, exactly-once across retries inside xmlrpc.client.",
     "rules": {"C01.1": "CFG exploration + provenance", "C01.2": "provenance of arguments", "C01.3": "exploration with a call counter",
-              "C01.4": "provenance + dominance", "C01.5": "dominance / post-dominance on normal paths", "C01.6": "provenance of the join operand", "C01.7": "shape interpreter + provenance", "C01.8": "provenance", "C01.9": "imported C17.3"},
+              "C01.4": "provenance + dominance", "C01.5": "dominance / post-dominance on normal paths", "C01.6": "provenance of the join operand", "C01.7": "shape interpreter + provenance", "C01.8": "provenance", "C01.9": "imported C17.3",
+              "C01.10": "provenance of the config argument at constructor-to-constructor call sites"},
     "assumptions": ["xmlrpc.client._Method stores its two constructor arguments as __send and __name"],
 }
 
@@ -494,3 +498,7 @@ def check(ck):
     from rules import c17
     common.import_rules(ck, c17, {"C17.3": "C01.9"})
     ck.floor("C01.9", 5)
+
+    # ---- C01.10 the caller's Config reaches every layer ---------------------------------------------------------------------
+    common.check_config_forwarding(ck, "C01.10")
+    ck.floor("C01.10", 6)
